@@ -244,6 +244,10 @@ class C11(Check):
             touched = any(getattr(h, 'hid', None) in tainted_ids for _, p in collected for h in p)
             if touched:
                 continue
+            if spec.tainted:
+                # nodes kept alive by an unspecified hook can still bind wildcard values on the way
+                # to a 404: the values handed to a 404 hook are compared only without such hooks
+                sa, sb = (tuple(x[:3] + ([h[:3] for h in x[3]],)) for x in (sa, sb))
             if sa != sb:
                 bad.append(('wsgi', f'GET /{path}: edited app {sa!r}, rebuilt app {sb!r}'))
             # the property's own description of which hooks fire
@@ -259,7 +263,7 @@ class C11(Check):
                         exp = None
                         break
                     exp.append(('s', s, '/' + p[:n]))
-                if exp is not None and sa[3] != exp:
+                if exp is not None and [h[:3] for h in sa[3]] != exp:
                     bad.append(('hooks-fired', f'GET /{path} matched {pat!r}: hooks ran {sa[3]!r}, expected {exp!r}'))
         return bad
 
